@@ -2,6 +2,7 @@ import Fix8Model.Codec.TokenLemmas
 import Fix8Model.Codec.RoundTripMsg
 import Fix8Model.Codec.RoundTripNorm
 import Fix8Model.Codec.SchemaUTESTWF
+import Fix8Model.Codec.SchemaFIX44WF
 import Fix8Model.Props.C08
 /-!
 C01 – Message encode/decode round trip preserves every field.
@@ -255,5 +256,20 @@ example : decodeGroup utest (fun t => utest.fieldTable.contains t) (utest.group 
   C01_group_roundtrip utest utest_wf _ (fun _ h => h) 19 exElems _ 1000 (by decide) (by decide +kernel) (by decide +kernel)
     (by decide +kernel)
 
+
+end Fix8Model.Props.C01
+
+/-! ### the stock FIX44 schema -/
+namespace Fix8Model.Props.C01
+open Fix8Model Fix8Model.Codec Fix8Model.Codec.RT
+
+/-- the FIX44 tables dumped from the code generated by the freshly built f8c (two passes) satisfy `SchemaWF` -/
+theorem C01_fix44_wf : SchemaWF fix44 = true := fix44_wf
+
+/-- C01 for every conforming message of the stock FIX44 schema -/
+theorem C01_roundtrip_fix44 (mt : Bytes) (ts : List Trait) (m : Msg)
+    (hmsg : fix44.msgs.find? (·.1 == mt) = some (mt, ts)) (hm : Conforms fix44 ts m = true) (hmt : m.msgType = mt) :
+    ∃ m', factory fix44 false (encodeMsg fix44 ts m) = .ok m' ∧ SameContent m m' ∧ encodeMsg fix44 ts m' = encodeMsg fix44 ts m :=
+  C01_roundtrip fix44 mt ts m fix44_wf hmsg hm hmt
 
 end Fix8Model.Props.C01
